@@ -177,6 +177,8 @@ pub struct Run<'a> {
     pub pattern_salt: u8,
     /// stats() succeeded at least once since the last mount
     stats_queried: bool,
+    /// FS-info (free count, next free) as found at mount time
+    fsinfo_at_mount: (u32, u32),
     /// C13: the current session is read-only; any device write is judged
     pub ro_mode: bool,
     ro_fsinfo_unusable: bool,
@@ -229,6 +231,7 @@ impl<'a> Run<'a> {
             last_dec: None,
             pattern_salt: 0,
             stats_queried: false,
+            fsinfo_at_mount: (0, 0),
             ro_mode: false,
             ro_fsinfo_unusable: false,
             crash: false,
@@ -262,6 +265,10 @@ impl<'a> Run<'a> {
         }
         self.status_at_mount = self.dev.with_store(|s| refdec::rd8(s, self.geom.status_off()));
         self.stats_queried = false;
+        if self.geom.width == 32 {
+            let (_, _, c, n, _) = self.dev.with_store(|s| refdec::fsinfo(s, &self.geom));
+            self.fsinfo_at_mount = (c, n);
+        }
         let dev = self.dev.handle();
         let clock = self.clock.clone();
         match guard(|| Session::mount(&dev, &clock, &mo)) {
@@ -1627,7 +1634,9 @@ impl<'a> Run<'a> {
             if !stats_queried && !untrusted && cnt != 0xFFFF_FFFF && cnt as u64 != free {
                 return Err(self.viol(Aspect::Stats, format!("FS-info free count after unmount is {}, the table has {} free entries", cnt, free)));
             }
-            if nxt != 0xFFFF_FFFF && (nxt < 2 || nxt as u64 > self.geom.clusters + 1) {
+            // the hint is judged only when the session stored new values (a foreign volume may come with a bad hint)
+            let rewritten = (cnt, nxt) != self.fsinfo_at_mount;
+            if rewritten && nxt != 0xFFFF_FFFF && (nxt < 2 || nxt as u64 > self.geom.clusters + 1) {
                 return Err(self.viol(Aspect::Stats, format!("FS-info next-free hint after unmount is {}, outside 2..={}", nxt, self.geom.clusters + 1)));
             }
         }
@@ -1684,10 +1693,42 @@ impl<'a> Run<'a> {
             if self.cfg.regions {
                 self.check_regions(op, pre_dec.as_ref(), &dec)?;
             }
+            if let Some(l) = &self.vol.large {
+                let g = &self.geom;
+                let mut low = false;
+                for (c, o) in dec.owner.iter() {
+                    if *o == 0 {
+                        continue;
+                    }
+                    let off = g.cluster_off(*c);
+                    if off >= 1 << 32 {
+                        self.trace.hit("data_cluster_beyond_4g");
+                    }
+                    if off >= 1 << 40 {
+                        self.trace.hit("data_cluster_beyond_1t");
+                    }
+                    if *c == g.max_cluster() {
+                        self.trace.hit("last_cluster_used");
+                    }
+                    if (*c as u64) < g.clusters / 2 {
+                        low = true;
+                    }
+                }
+                if low && l.hint_rel.map_or(false, |r| r <= 0) {
+                    self.trace.hit("alloc_wrapped");
+                }
+            }
             self.last_dec = Some(dec);
         }
         if self.cfg.cmp_lib_every && self.cfg.wants(Aspect::Tree) && !dirty_handles {
             self.op_list(0)?;
+        }
+        if self.cfg.wants(Aspect::Large) {
+            let vb = self.geom.volume_bytes();
+            let (hr, hw, pe) = self.dev.with(|d| (d.hi_read, d.hi_write, d.past_end));
+            if hw > vb || hr > vb || pe {
+                return Err(self.viol(Aspect::Large, format!("after {:?}: the device was addressed beyond the declared end of the volume ({} bytes): highest read {}, highest write {}", op, vb, hr, hw)));
+            }
         }
         if self.cfg.fatcopies {
             self.check_fat_copies(op)?;
@@ -1840,7 +1881,7 @@ impl<'a> Run<'a> {
                     Region::Cluster(n) => {
                         let owner_pre = pre_dec.owner.get(&n).map(|i| &pre_dec.objects[*i]);
                         let owner_post = post.owner.get(&n).map(|i| &post.objects[*i]);
-                        let free_before = pre_dec.fat[n as usize] == 0;
+                        let free_before = pre_dec.fat.get(n) == 0;
                         let allowed = free_before
                             || [owner_pre, owner_post].iter().flatten().any(|ob| {
                                 if ob.is_dir {
